@@ -778,7 +778,7 @@ def _severity(run: Run, res: Resolver) -> None:
 
 
 # ---------------------------------------------------------------- R08.8
-def _enum_shape(run: Run, cm) -> None:
+def _enum_shape(run: Run, cm, rule: str = "R08.8") -> None:
     fi = normalise_locals(cm.func("EnumConstraint.evaluate"), [
         ("value_str", lambda v: isinstance(v, ast.Call) and ast.unparse(v.func) == "str" and len(v.args) == 1),
         ("matches", lambda v: isinstance(v, ast.ListComp) and "allowed_values" in ast.unparse(v)),
@@ -801,13 +801,13 @@ def _enum_shape(run: Run, cm) -> None:
         ok = bool(t_succ) and all(isinstance(cfg.nodes[s].ast, ast.Return) and _result_valid(cfg.nodes[s].ast.value) is True for s in t_succ)
     mdefs = [n for n in cfg.nodes if isinstance(n.ast, ast.Assign) and any(is_name(t, "matches") for t in n.ast.targets)]
     ok = ok and len(mdefs) == 1 and cfg.dominated_by(mdefs[0].id, exact[0].id)
-    run.instance("R08.8", cm.loc(fi.node), "ENUM: an exact member is accepted before any prefix matching", ok=ok)
+    run.instance(rule, cm.loc(fi.node), "ENUM: an exact member is accepted before any prefix matching", ok=ok)
     if not ok:
-        run.violation("R08.8", cm, fi.qualname, f"exact match `{svar} in self.allowed_values` first", "ENUM no longer accepts an exact member before prefix matching: a value that is both a member and a prefix of another member (DEV / DEVELOPMENT) is rejected as ambiguous")
+        run.violation(rule, cm, fi.qualname, f"exact match `{svar} in self.allowed_values` first", "ENUM no longer accepts an exact member before prefix matching: a value that is both a member and a prefix of another member (DEV / DEVELOPMENT) is rejected as ambiguous")
     mok = len(mdefs) == 1 and ast.unparse(mdefs[0].ast.value) == f"[v for v in self.allowed_values if v.startswith({svar})]"
-    run.instance("R08.8", cm.loc(fi.node), f"ENUM: candidates are `[v for v in self.allowed_values if v.startswith({svar})]`", ok=mok)
+    run.instance(rule, cm.loc(fi.node), f"ENUM: candidates are `[v for v in self.allowed_values if v.startswith({svar})]`", ok=mok)
     if not mok:
-        run.violation("R08.8", cm, fi.qualname, "prefix candidates", "the ENUM candidate list is not 'allowed values that start with the value'")
+        run.violation(rule, cm, fi.qualname, "prefix candidates", "the ENUM candidate list is not 'allowed values that start with the value'")
     # verdicts by candidate count
     for rn in [n for n in cfg.nodes if isinstance(n.ast, ast.Return)]:
         valid = _result_valid(rn.ast.value)  # type: ignore[union-attr]
@@ -830,9 +830,9 @@ def _enum_shape(run: Run, cm) -> None:
         else:
             ok = ((lo, hi) == (0, 0) and code == "E005") or (lo >= 2 and code == "E006")
             what = f"rejects with {code} when len(matches) in [{lo},{hi}]"
-        run.instance("R08.8", cm.loc(rn.ast), f"ENUM: {what}", ok=ok)
+        run.instance(rule, cm.loc(rn.ast), f"ENUM: {what}", ok=ok)
         if not ok:
-            run.violation("R08.8", cm, fi.qualname, rn.ast, f"ENUM {what}: documented semantics are unique prefix accepts, no candidate E005, several candidates E006")
+            run.violation(rule, cm, fi.qualname, rn.ast, f"ENUM {what}: documented semantics are unique prefix accepts, no candidate E005, several candidates E006")
 
 
 _KIND_TYPES = {"STRING": {"str"}, "NUMBER": {"int", "float"}, "BOOLEAN": {"bool"}, "LIST": {"list"}}
